@@ -544,6 +544,8 @@ def r6_append_only(chk, put, wh, mapb):
                 ok = len(sk) == 1 and norm(sk[0].args[0]) == "self._bof"
                 chk.decide(ok, "C02.R6", key, f.where(t), "public truncate(): whole content from _bof, by request",
                            "truncate() does not cut at _bof")
+            elif name == "map_blocks":
+                continue  # decided below on affine offsets
             else:
                 arg = norm(t.args[0]) if t.args else None
                 asg = assignments(f.node)
@@ -559,6 +561,10 @@ def r6_append_only(chk, put, wh, mapb):
                 chk.decide(ok and guarded, "C02.R6", key, f.where(t),
                            f"truncate({arg}) at the end of the last complete record, only when the file is longer",
                            f"UKVFile.{name} truncates the stream at {arg}: committed records may be cut")
+    from .ukvscan import truncate_facts
+
+    for i, tf in enumerate(truncate_facts(prog, mapb, 2)):
+        chk.decide(tf.ok, "C02.R6", f"{mapb.key}:truncate" + (f"#{i}" if i else ""), mapb.where(tf.node), tf.good, "UKVFile.map_blocks: " + tf.bad)
     # index entries are never deleted or replaced
     for f in prog.functions([UKV]):
         if f.cls is None or f.cls.name != "UKVFile":
